@@ -276,7 +276,7 @@ def shard_wide(seed, count):
     for _ in range(count):
         n = rng.choice((32, 32, 32, 64, 16))
         x, y = val(n), val(n)
-        s = rng.randrange(256)
+        s = rng.randrange(256) if rng.random() < 0.8 else rng.choice((256, 257, 288, 511, 512, 1023, 256 + rng.randrange(256), rng.randrange(256, 5000)))      # (amounts come from Rs<7:0> in instructions, but the helpers are defined for any amount)
         cin = rng.getrandbits(1)
         nt = s >= 1
         for f in ('lsl', 'lsr', 'asr', 'ror'):
